@@ -226,9 +226,9 @@ def main():
             if re.match(r"C\d\d-\d+$", d) and (not only or re.match(only, d)):
                 jobs.append({"id": d, "patch": os.path.join(sd, d, "patch.diff"), "props": [d.split("-")[0]]})
         hd = os.path.join(sd, "harmless")
-        for d in sorted(os.listdir(hd)) if os.path.isdir(hd) and not only else []:
+        for d in sorted(os.listdir(hd)) if os.path.isdir(hd) else []:
             mp = os.path.join(hd, d, "meta.json")
-            if os.path.exists(mp):
+            if os.path.exists(mp) and (not only or re.match(only, "harmless/" + d)):
                 jobs.append({"id": "harmless/" + d, "patch": os.path.join(hd, d, "patch.diff"),
                              "props": sorted(json.load(open(mp)).get("checks_stay_quiet", {}))})
         NP = max(1, 16 // workers)
@@ -245,7 +245,10 @@ def main():
             summ = " ".join("%s:%s" % (k, ("DET" + ("" if v["with_failing_input"] else "(no-input)")) if v["detected"] else ("quiet" if v["exit"] == 0 else "ERR")) for k, v in r["checks"].items())
             print("%-14s %s  %.0fs" % (r["id"], summ if r["patch_applies"] else "PATCH DOES NOT APPLY", r["wall_s"]), flush=True)
         for p in ps: p.join()
-        json.dump(allres, open(os.path.join(sd, "rerun-results.json"), "w"), indent=1, sort_keys=True)
+        rp = os.path.join(sd, "rerun-results.json")
+        if only and os.path.exists(rp):        # a partial re-run updates the stored table instead of replacing it
+            old = json.load(open(rp)); old.update(allres); allres = old
+        json.dump(allres, open(rp, "w"), indent=1, sort_keys=True)
         shutil.rmtree(SCR, ignore_errors=True); sh("git -C %s worktree prune" % REPO)
         return
     muts = enumerate_mutants(files)
